@@ -236,7 +236,7 @@ CONDS = [
     make_cond(_G, "runner_desc", body_runner, _RS,
               ["1 <= n1 <= 2 and 1 <= n2 <= 2 and 1 <= nvars <= 2 and mode == 1 and b == 2 and not shuf",
                "j1 == 0 and j2 == 0 and j3 == 0", "idim or not const_is_dim",
-               "not unsorted or (not cases and n1 == 2 and n2 == 1 and not const_is_dim)"], timeout=600,
+               "not unsorted or (not cases and n1 == 2 and n2 == 2 and not const_is_dim)"], timeout=600,
               bounds="Runner crops: grids up to 2x2 and unsorted case subsets, 1-2 variables, optional internal "
                      "dimension, constant that is / is not an internal dimension, resource, attribute; batchsize 2; "
                      "with / without reloading crop and farmer by name; combos also given in non-alphabetical "
